@@ -163,7 +163,7 @@ impl FarmWorld {
             2,  // 11 setPct
             2,  // 12 setFactors
             2,  // 13 collect
-            1,  // 14 pause
+            2,  // 14 pause / upgrade
             1,  // 15 penalty config
             3,  // 16 hub / sc whitelist
             3,  // 17 on behalf
@@ -278,7 +278,13 @@ impl FarmWorld {
                 }
                 ('O', format!("collect {}", if rng.chance(1, 10) { u } else { ow }))
             }
-            14 => ('O', format!("pause {}", if rng.chance(1, 5) { u } else { ow })),
+            14 => {
+                if rng.chance(1, 3) {
+                    ('O', "upgrade".to_string())
+                } else {
+                    ('O', format!("pause {}", if rng.chance(1, 5) { u } else { ow }))
+                }
+            }
             15 => {
                 if rng.chance(1, 2) {
                     ('O', format!("setPenalty {} {}", ow, *rng.pick(&[0u64, 1, 100, 300, 5000, 9999, 10_000])))
